@@ -522,3 +522,16 @@ def run(ctx):
         "permutation invariance of the children recursion holds exactly in exact arithmetic (C02) and to 1e-9 in floats inside the underflow window; outside the window the property does not apply",
         "the reference is the repo's own undecorated function (__wrapped__), called on the same arguments right after the memoised call",
     ]
+
+
+def replay(ctx, doc):
+    """Re-run the recorded chain run with the shadows installed (fresh process: same call history)."""
+    import json
+
+    r = doc.get("replay", {})
+    print(json.dumps({k: v for k, v in r.items() if k != "mismatch"}, indent=1))
+    with ProcessPoolExecutor(max_workers=1) as pool:
+        res = list(pool.map(_run_task, [r["run"]]))[0]
+    print("stats:", json.dumps(res["stats"], indent=1))
+    for m in res["mismatches"]:
+        ctx.fail("C14:%s:%s:in-window" % (m["cache"], "hit" if m["hit"] else "miss"), "memoised %s differs from the undecorated function (call #%d)" % (m["cache"], m["call_index"]), {"run": r["run"], "mismatch": m})
